@@ -733,6 +733,10 @@ func (vc *VC) execTypeSwitch(x *ast.TypeSwitchStmt, st *State, label string) *St
 	isIface := si != nil && si.Kind == "iface"
 	if !isIface {
 		vc.unsupportedf(x.Pos(), "type switch on sort %s", v.Sort)
+	} else if vc.fc != nil && vc.fc.WellFormed && vc.safety {
+		// sweep option `wellformed`: the node examined is not nil
+		vc.assume(st.pc, tNot(vc.isNil(v, x.Pos())))
+		vc.axiomsUsed = append(vc.axiomsUsed, "assumed: well-formed tree (interface-typed children are non-nil)")
 	}
 	for _, cs := range x.Body.List {
 		cc := cs.(*ast.CaseClause)
@@ -836,6 +840,16 @@ func (vc *VC) closedWorld(v Term, t types.Type) {
 	var alts []string
 	alts = append(alts, fmt.Sprintf("(= (tag.%s i) 0)", v.Sort))
 	for _, it := range impls {
+		if vc.fc != nil && vc.fc.WellFormed {
+			// sweep option `wellformed`: the tree consists of the node types of the
+			// package that declares the interface (wrappers that embed them in
+			// other packages are not tree nodes)
+			if in, ok := types.Unalias(t).(*types.Named); ok && in.Obj().Pkg() != nil {
+				if n, ok := derefNamed(it); ok && n.Obj().Pkg() != nil && n.Obj().Pkg().Path() != in.Obj().Pkg().Path() {
+					continue
+				}
+			}
+		}
 		alts = append(alts, fmt.Sprintf("(= (tag.%s i) %d)", v.Sort, vc.ss.typeID(it)))
 		vc.ss.hasTag(v.Sort, v, it) // ensure declared
 	}
